@@ -194,8 +194,8 @@ class OscInterface(ABC):
     @staticmethod
     def _check_subtime(time, subtime):
         # OSC spec. 1.0. This check should be done by _osclib.
-        if time is None:
-            return
+        if time is None or time < 0.0:
+            return  # Immediately, nothing can be before.
         if subtime is None or time > subtime:
             raise ValueError(
                 'nested bundle time must be >= enclosing bundle time')
